@@ -168,7 +168,10 @@ impl Default for Cfg {
 pub enum Status {
     Registered,
     Runnable,
+    /// the calling thread waits for every worker of the frame (scope end of `Runner::run`)
     BlockedJoin,
+    /// the calling thread waits for the worker in the given slot (`JoinHandle::join` in spawn order)
+    BlockedJoinOn(usize),
     Done,
 }
 
@@ -526,7 +529,6 @@ fn wait_for_token(mut st: MutexGuard<'static, State>, me: usize) {
 /// The running slot has logged its event; hand the token on.
 fn yield_token(mut st: MutexGuard<'static, State>, me: usize) {
     st.steps += 1;
-    st.slots[me].steps += 1;
     if st.steps > st.cfg.budget {
         do_abort(&mut st, "budget: step budget exhausted");
         return;
@@ -626,6 +628,8 @@ fn event_ex(kind: Kind, stage: u16, a: u64, b: u64, may_yield: bool, spin: bool)
             if spin {
                 st.spinning[me] = true;
             } else {
+                // own steps: steps in which the thread did something (waiting for a lock does not count)
+                st.slots[me].steps += 1;
                 // progress: every spinner may look at its lock again
                 for x in st.spinning.iter_mut() {
                     *x = false;
@@ -729,9 +733,32 @@ fn hook_spawner_point(p: SpawnerPoint, n: usize) {
         0 => return,
         k => k - 1,
     };
+    if p == SpawnerPoint::ScopeUnwind {
+        // the calling thread unwinds (a joined worker had panicked, or an operator panicked on the caller) and
+        // the scope is about to wait for the workers that are still running: give the token away until they
+        // are done. Nothing is logged by an unwinding thread except this point.
+        while st.frames[f].logged < st.frames[f].registered {
+            let slot = st.frames[f].first_slot + st.frames[f].logged;
+            st.frames[f].logged += 1;
+            st.slots[slot].status = Status::Runnable;
+        }
+        if st.frames[f].exited < st.frames[f].registered {
+            st.log.push(Event {
+                slot: 0,
+                kind: Kind::Sp,
+                stage: p as u16,
+                a: 0,
+                b: f as u64,
+            });
+            st.slots[me].status = Status::BlockedJoin;
+            yield_token(st, me);
+        }
+        return;
+    }
     // handshake: wait (in real time, with a deterministic outcome) until the n spawned workers have registered
     let mut waited = 0u32;
-    while st.frames[f].registered < n {
+    let need = if p == SpawnerPoint::BeforeJoinOne { 0 } else { n };
+    while st.frames[f].registered < need {
         let (g, t) = match sim().cv[me].wait_timeout(st, Duration::from_millis(500)) {
             Ok(x) => x,
             Err(p) => {
@@ -775,8 +802,23 @@ fn hook_spawner_point(p: SpawnerPoint, n: usize) {
         a: n as u64,
         b: f as u64,
     });
-    if p == SpawnerPoint::BeforeJoin && st.frames[f].exited < st.frames[f].registered {
-        st.slots[me].status = Status::BlockedJoin;
+    match p {
+        // `Runner::run` joins at the end of the scope: the caller continues when every worker is done.
+        // The other two drivers join one handle after the other (BeforeJoinOne), so that the calling thread
+        // folds the results of the first workers while later ones are still running.
+        SpawnerPoint::BeforeJoin => {
+            let scope_join = st.frames[f].info.driver == verif::Driver::Run;
+            if scope_join && st.frames[f].exited < st.frames[f].registered {
+                st.slots[me].status = Status::BlockedJoin;
+            }
+        }
+        SpawnerPoint::BeforeJoinOne => {
+            let slot = st.frames[f].first_slot + n;
+            if slot < st.slots.len() && st.slots[slot].status != Status::Done {
+                st.slots[me].status = Status::BlockedJoinOn(slot);
+            }
+        }
+        _ => {}
     }
     yield_token(st, me);
 }
@@ -838,6 +880,9 @@ fn hook_worker_exit(panicking: bool) {
         b: panicking as u64,
     });
     if st.frames[f].exited == st.frames[f].registered && st.slots[0].status == Status::BlockedJoin {
+        st.slots[0].status = Status::Runnable;
+    }
+    if st.slots[0].status == Status::BlockedJoinOn(me) {
         st.slots[0].status = Status::Runnable;
     }
     st.steps += 1;
